@@ -147,11 +147,19 @@ impl Engine for BpEngine {
                 if let Some(k) = eintr {
                     peer.hiccup_write_after(k, std::io::ErrorKind::Interrupted);
                 }
+                let mut released = false;
                 if let Some(ic) = idle_chan.as_ref() {
                     use amq_protocol::protocol::{channel, AMQPClass};
-                    peer.push(&broker::method(ic.channel_id(), AMQPClass::Channel(channel::AMQPMethod::Close(channel::Close { reply_code: 404, reply_text: "NOT_FOUND".into(), class_id: 0, method_id: 0 }))));
+                    let close = broker::method(ic.channel_id(), AMQPClass::Channel(channel::AMQPMethod::Close(channel::Close { reply_code: 404, reply_text: "NOT_FOUND".into(), class_id: 0, method_id: 0 })));
+                    if release_all {
+                        // one event: the socket turns writable (everything can go) and the Close is readable
+                        peer.set_budget_and_push(None, &close);
+                        released = true;
+                    } else {
+                        peer.push(&close);
+                    }
                 }
-                if release_all {
+                if release_all && !released {
                     peer.set_budget(None);
                 }
                 loop {
